@@ -948,9 +948,9 @@ def run(ck: core.Check):
             ck.broken("correspondence", "C02 internal operator opset_req not observable", f"{type(e).__name__}: {e}")
 
     # generated programs (oracle on all; naming correspondence on the 'naming' slice)
-    n_oracle = pick(1300, 12000)
+    n_oracle = pick(800, 12000)
     n_naming = pick(350, 5000)
-    n_hist = pick(200, 1500)
+    n_hist = pick(120, 1500)
     tmode = "typed-thorough" if ck.thorough else "typed"
     n_typed = len(typed_grid(ck.seed, ck.thorough)) + pick(60, 2000)
     tasks = ([(ck.seed, i, "oracle") for i in range(n_oracle)] + [(ck.seed, 10**6 + i, "naming") for i in range(n_naming)]
